@@ -112,7 +112,7 @@ impl<B: Backend> Clone for Allocated<B> {
 
 unsafe impl<B: Backend + Sync> Sync for Allocated<B> {}
 
-unsafe impl<B: Backend + Send> Send for Allocated<B> {}
+unsafe impl<B: Backend + Send + Sync> Send for Allocated<B> {}
 
 impl<B: Backend + Unpin> Unpin for Allocated<B> {}
 
